@@ -89,7 +89,11 @@ func (g *gen) typ(d int) string {
 }
 
 func (g *gen) chanType(d int) string {
-	switch g.pick(7) {
+	switch g.pick(9) {
+	case 7:
+		return "<-chan <-chan " + g.typ(d-1)
+	case 8:
+		return "<-chan chan " + g.typ(d-1)
 	case 0:
 		return "chan " + g.typ(d-1)
 	case 1:
@@ -346,7 +350,29 @@ func (g *gen) expr(d int) string {
 			return g.of(valueNames...)
 		}
 	}
-	switch g.pick(22) {
+	switch g.pick(24) {
+	case 22, 23:
+		// a type in expression context (argument of make/new/a call, conversion operand): the parser
+		// reads it through parseUnaryExpr/parsePrimaryExpr, not parseType; channel types of every
+		// direction and nesting are drawn more often here (`<-chan <-chan T` re-associates arrows)
+		t := g.typ(d - 1)
+		if g.pct(60) {
+			t = g.chanType(d)
+		}
+		switch g.pick(6) {
+		case 0:
+			return "make(" + t + ")"
+		case 1:
+			return "make(" + t + ", " + g.expr(d-1) + ")"
+		case 2:
+			return "new(" + t + ")"
+		case 3:
+			return "(" + t + ")(" + g.expr(d-1) + ")"
+		case 4:
+			return g.of("f", "pkg.F") + "(" + t + ", " + g.expr(d-1) + ")"
+		default:
+			return "[]" + t + "{}"
+		}
 	case 0:
 		return g.of(intLits...)
 	case 1:
